@@ -563,12 +563,14 @@ class SlotNode(BaseNode):
             # See https://github.com/django-components/django-components/pull/859
             # NOTE: Only for fills. The slot's default content is part of the component's own template,
             #       so its `{% block %}` tags belong to the blocks of that template.
-            if (
-                slot_fill.is_filled
-                and len(used_ctx.render_context.dicts) > 1
-                and "block_context" in used_ctx.render_context.dicts[-2]
-            ):
-                render_ctx_layer = used_ctx.render_context.dicts[-2]
+            #
+            # The fill was defined in the template that rendered the component which owns this slot.
+            # `Component._render_impl()` marks the layer of each component with the component's ID,
+            # and the layer of the template that rendered the component is the one right below.
+            render_ctx_dicts = used_ctx.render_context.dicts
+            owner_layer_index = get_index(render_ctx_dicts, lambda d: d.get(_COMPONENT_CONTEXT_KEY) == component_id)
+            if slot_fill.is_filled and owner_layer_index:
+                render_ctx_layer = render_ctx_dicts[owner_layer_index - 1]
             else:
                 # Otherwise we simply re-use the last layer, so that following logic uses `with` in either case
                 render_ctx_layer = used_ctx.render_context.dicts[-1]
